@@ -11,6 +11,16 @@ TRUST = ("trusted base: rustc's MIR dump of the current tree, the mirsym interpr
 
 # id -> (level text, note, design ref)
 CLAIMED = {
+    "C16": ("All calibration sets of <= K definitions (quick 2, thorough 3) from 10 gate- and 5 measure-calibration shapes (fixed/variable qubits, literal/variable parameters, "
+            "DAGGER, named measurements) with solver-chosen names and qubits, queried by 7 gate / 4 measurement shapes: the real get_match_for_gate / "
+            "get_match_for_measurement against a reference precedence function written from the statement.", TRUST, "5/C16"),
+    "C17": ("All programs of <= 2 calibrations (3 gate headers x 10 bodies incl. recursion, growing parameters, body MEASURE/RESET/DECLARE; 2 measure headers x 4 bodies) and "
+            "a body of <= N gate / measure instructions (quick 1, thorough 2): both expansion entry points against a reference expander (substitution of qubit and parameter "
+            "variables everywhere, measurement target replaces the target name only, fixpoint, declarations hoisted).", TRUST, "5/C17"),
+    "C18": ("Same inputs as C17: expansion must return (call depth bounded by the interpreter; a divergence is replayed natively in a child process) and report "
+            "RecursiveCalibration exactly when the reference re-enters an active calibration.", TRUST, "5/C18"),
+    "C19": ("Same inputs as C17: the returned source map is checked structurally (source order, unmodified entries identical, ranges partition the output, nested records "
+            "partition their parent range) and list_sources / list_targets are checked to be inverse. One known finding (hoisted declarations).", TRUST, "5/C19"),
     "C22": ("All single blocks of <= N instructions (quick 2, thorough 3) plus an optional terminator over 16 classical / RF templates with solver-chosen operands, "
             "scheduled by the real ScheduledProgram::from_program: every edge points forward in block order; with all RF instructions matched every node is reachable "
             "from the start and reaches the end.", TRUST, "5/C22"),
